@@ -66,6 +66,7 @@ func NewConfig(prop string, tier string, r *core.Rand) Config {
 		c.PInvalid = 0.05
 		c.KindW["proposal"], c.KindW["vote"], c.KindW["setdoc"], c.KindW["withdraw"], c.KindW["unstake"] = 1, 1.5, 1, 1.5, 2
 	case "C04":
+		c.Metamorphic = r.Chance(0.4)
 		c.PDup, c.PReplay = 0.25, 0.25
 		c.PInvalid = 0.25
 		c.TxMean = 5
